@@ -49,8 +49,9 @@ type tmpl struct {
 	memLim   int64  // bytes, 0 = none
 	initCpus string // cpuset.cpus the runtime creates the container with
 	initMems string
-	oomAdj   int64  // Burstable only: oom_score_adj the kubelet derived from the memory request (0 = 999)
-	shape    string // which optional sub-messages the runtime omits: "", no-linux, no-resources, no-cpu, no-memory, pod-no-linux
+	oomAdj   int64    // Burstable only: oom_score_adj the kubelet derived from the memory request (0 = 999)
+	shape    string   // which optional sub-messages the runtime omits: "", no-linux, no-resources, no-cpu, no-memory, pod-no-linux
+	dev      [2]int64 // major, minor of a writable character device the container is given (0,0 = none)
 }
 
 type ctrSpec struct {
@@ -78,6 +79,8 @@ type updSpec struct {
 	cpuReq int64
 	cpuLim int64
 	memLim int64
+	same   bool // the runtime repeats the resources the container currently has (UpdateContainer's short-circuit path)
+	absent bool // the update request carries no resources message at all
 }
 
 type scenario struct {
@@ -370,7 +373,7 @@ func (c *wctr) nri(state api.ContainerState, r res) *api.Container {
 }
 
 func (c *wctr) nriFull(state api.ContainerState, r res) *api.Container {
-	return &api.Container{
+	m := &api.Container{
 		Id: c.id(), PodSandboxId: c.pod.slot, Name: c.spec.name, State: state,
 		Labels: map[string]string{}, Annotations: map[string]string{},
 		Linux: &api.LinuxContainer{
@@ -379,6 +382,13 @@ func (c *wctr) nriFull(state api.ContainerState, r res) *api.Container {
 			CgroupsPath: c.pod.cgroupParent() + "/" + c.id(),
 		},
 	}
+	if d := c.spec.t.dev; d[0] != 0 {
+		m.Linux.Devices = []*api.LinuxDevice{{Path: fmt.Sprintf("/dev/vdev%d", d[1]), Type: "c", Major: d[0], Minor: d[1]}}
+		if m.Linux.Resources != nil {
+			m.Linux.Resources.Devices = []*api.LinuxDeviceCgroup{{Allow: true, Type: "c", Major: api.Int64(d[0]), Minor: api.Int64(d[1]), Access: "rwm"}}
+		}
+	}
+	return m
 }
 
 func (c *wctr) state() api.ContainerState {
@@ -710,7 +720,13 @@ func (x *exec) step(ev string) *reply {
 		var idx int
 		fmt.Sscanf(f[2], "%d", &idx)
 		u := x.scn.updates[idx]
+		if u.same {
+			u = c.req
+		}
 		r := encodeRes(u, res{})
+		if u.absent {
+			r, u = nil, c.req
+		}
 		guard(func() { rp.updates, rp.err = p.UpdateContainer(ctx, c.pod.nri(), c.nri(c.state(), c.told), r) })
 		inFlight()
 		if rp.panic != "" {
@@ -1009,6 +1025,12 @@ func (x *exec) enabled() []string {
 				}
 			case lifeNone:
 				evs = append(evs, "start:"+c.slot, "stop:"+c.slot)
+			case lifeFailed:
+				// a container whose creation the plugin refused: the runtime never has it, yet events naming it can arrive
+				evs = append(evs, "start:"+c.slot, "stop:"+c.slot, "remove:"+c.slot)
+				for i := range x.scn.updates {
+					evs = append(evs, fmt.Sprintf("update:%s:%d", c.slot, i))
+				}
 			}
 		}
 		for _, p := range x.w.pods {
